@@ -391,6 +391,34 @@ func PlaySched(beh M) ([]M, error) {
 	}
 	started := []string{}
 	partial := map[string]bool{}
+	// catch-up: the schedules come from a lock-free model, the real goroutines take the lock: one that was blocked
+	// while the model moved it on lags behind. After every step each parked goroutine that has arrived at fewer
+	// hook points than the model has moved it through is released again, so that the real execution reaches the
+	// states the schedule is about.
+	want := map[string]int{}
+	waitBegun := map[string]bool{}
+	catchUp := func() {
+		for iter := 0; iter < 24; iter++ {
+			progressed := false
+			for b, w := range want {
+				s.mu.Lock()
+				p := s.parked[b]
+				arr := s.arrived[b]
+				s.mu.Unlock()
+				if p == nil {
+					continue
+				}
+				if arr < w || (p.point == "close.waiting" && waitBegun[b]) {
+					s.release(b)
+					s.settle(b)
+					progressed = true
+				}
+			}
+			if !progressed {
+				return
+			}
+		}
+	}
 	ok := true
 	for si, sv := range L(beh, "steps") {
 		if !ok {
@@ -471,6 +499,15 @@ func PlaySched(beh M) ([]M, error) {
 		if res == "stuck" {
 			ok = false
 			stuck(a, act)
+		}
+		switch act {
+		case "KStart", "KLock", "KDecide", "KUnlock", "KWaitEnd", "Deliver", "DeliverRest", "CLock", "CDecide", "CEnter", "CStart", "CFinish":
+			want[a]++
+		case "KWaitBegin":
+			waitBegun[a] = true
+		}
+		if ok {
+			catchUp()
 		}
 	}
 	// end of schedule: let everything run to completion
